@@ -9,6 +9,10 @@
 (*   Evaluate(d)  initial values / derivatives / values of m_d             *)
 (*   Ship(d)      pickle.loads(pickle.dumps(m_d)) and evaluate the copy    *)
 (*                (what every parallel scan does with a model)             *)
+(*   Export(d)    mxlpy.sbml.write(m_d, other.xml), read that file back    *)
+(*                and evaluate the result (the C08 round trip applied to a *)
+(*                model that came from read: the exporter obtains the      *)
+(*                formulas from the SOURCE of m_d's functions)             *)
 (* SPECIFICATION (Registry = "none"): the outcome of every call is the     *)
 (* meaning of document d and nothing else - every model behaves as if its  *)
 (* document had been read alone.  ReadAlone is that statement as an        *)
@@ -20,6 +24,13 @@
 (* counterexample is Read(d1), Read(d2), Ship(d1) with San(stem d1) =      *)
 (* San(stem d2) - same stem in two directories, or two stems that collapse *)
 (* (Model-1 / model_1).                                                    *)
+(* WRONG INSTANCE (Registry = "source"): every import has a module of its  *)
+(* own, but the generated SOURCE FILE is named after the sanitised stem;   *)
+(* Export(d) reads the formulas of m_d's functions from that file, which   *)
+(* holds the functions of the document read LAST under that name.  TLC     *)
+(* must refute ReadAlone: Read(d1), Read(d2), Export(d1) silently exports  *)
+(* d2's rate laws under d1's names (when both documents have the same      *)
+(* layout; otherwise the export fails or is garbage).                      *)
 (* Every session of length MaxOps is emitted with the expected outcomes    *)
 (* (spec -> code); the replayer binds each d to a real generated document. *)
 (***************************************************************************)
@@ -41,7 +52,7 @@ vars == <<have, reg, hist, alone>>
 
 Init ==
     /\ have = {}                          \* documents whose model the session holds
-    /\ reg = [m \in Mods |-> 0]           \* registry instance: which document's functions a module name denotes
+    /\ reg = [m \in Mods |-> 0]           \* wrong instances: which document's functions / source text a name denotes
     /\ hist = <<>>
     /\ alone = TRUE                       \* every outcome so far equals the outcome of a session that only read d
 
@@ -49,7 +60,7 @@ Op(o, d) == [op |-> o, d |-> d]
 
 Read(d) ==
     /\ have' = have \cup {d}
-    /\ reg' = IF Registry = "stem" THEN [reg EXCEPT ![Mod(d)] = d] ELSE reg
+    /\ reg' = IF Registry \in {"stem", "source"} THEN [reg EXCEPT ![Mod(d)] = d] ELSE reg
     /\ hist' = Append(hist, Op("read", d))
     /\ UNCHANGED alone
 
@@ -65,14 +76,21 @@ Ship(d) ==
     /\ alone' = (alone /\ (Registry = "stem" => reg[Mod(d)] = d))
     /\ UNCHANGED <<have, reg>>
 
-Next == Len(hist) < MaxOps /\ \E d \in Docs : Read(d) \/ Evaluate(d) \/ Ship(d)
+\* the exporter reads the source text of m_d's functions: the file registered under the module name
+Export(d) ==
+    /\ d \in have
+    /\ hist' = Append(hist, Op("export", d))
+    /\ alone' = (alone /\ (Registry = "source" => reg[Mod(d)] = d))
+    /\ UNCHANGED <<have, reg>>
+
+Next == Len(hist) < MaxOps /\ \E d \in Docs : Read(d) \/ Evaluate(d) \/ Ship(d) \/ Export(d)
 Spec == Init /\ [][Next]_vars
 
 ReadAlone == alone
 
-\* the shape the classifier uses: a Ship of d after a later Read of another document with the same module name
+\* the shape the classifier uses: a Ship / Export of d after a later Read of another document with the same module name
 Collides(h, k) ==
-    /\ h[k].op = "ship"
+    /\ h[k].op \in {"ship", "export"}
     /\ \E j \in 1..(k - 1) : /\ h[j].op = "read" /\ h[j].d # h[k].d /\ Mod(h[j].d) = Mod(h[k].d)
                              /\ \E m \in 1..(j - 1) : h[m].op = "read" /\ h[m].d = h[k].d
                              /\ \A m \in (j + 1)..(k - 1) : ~(h[m].op = "read" /\ h[m].d = h[k].d)
